@@ -11,14 +11,14 @@ Transcribed from /repo/crates/erg_compiler/codegen.rs (target 3.11):
   `emit_load_const`, `emit_acc` (identifier), `emit_var_def` (`STORE_NAME`), `emit_binop` / `emit_binop_instr_311`
   (`BINARY_OP k` + 1 cache entry, `COMPARE_OP k` + 2 cache entries, short-circuit `and`/`or` as
   `EXTENDED_ARG hi; JUMP_IF_{FALSE,TRUE}_OR_POP lo` with the byte distance patched by `fill_jump`),
-  `emit_unaryop` (`UNARY_NEGATIVE`), `emit_not_instr` (`UNARY_NOT`), `emit_call_local` default arm + `emit_args_311`
+  `emit_unaryop` (`UNARY_NEGATIVE`), `emit_not_instr` (`UNARY_NOT`), `emit_if_instr` (both branches, one-expression bodies through `emit_simple_block`), `emit_call_local` default arm + `emit_args_311`
   (`PUSH_NULL; LOAD_NAME f; args…; PRECALL n; CALL n`), `emit_precall_and_call`.
 Constant/name *indices* are resolved (an instruction carries the constant or the name itself); the real code object is
 decoded to the same form by the harness, which refuses (`out-of-model`) code containing an index ≥ 256.
 Sizes are in bytes, jump arguments in code units, exactly as in the 3.11 byte stream.
 
 Not modelled here (tied behaviourally by the second stream of the check): the import prelude, floats, lists, control
-flow other than `and`/`or`, user subroutines, other target versions.
+flow other than `and`/`or` and the `if` expression with both branches, user subroutines, other target versions.
 Import-free: the driver links as a `lean_exe`.
 -/
 namespace ErgVerif.C01
@@ -58,6 +58,10 @@ inductive Expr where
   | or (l r : Expr) (w : Option Cls)
   | neg (e : Expr) (w : Option Cls)
   | not (e : Expr) (w : Option Cls)
+  /-- `if(c, do a, do b)` with one-expression branch bodies. The branches are held in *chunk form* (`stripWrap`
+      applied by whoever builds the node): `emit_if_instr` emits a branch body through `emit_simple_block`/`emit_chunk`,
+      which does not apply the node's own wrapper. -/
+  | ite (c a b : Expr) (w : Option Cls)
   deriving Repr
 
 /-- `emit_expr`'s wrapper decision: `should_wrap()` and the structural variant of the derefined type
@@ -112,6 +116,8 @@ inductive Instr where
   | extArg (hi : Nat)
   | jumpIfFalseOrPop (lo : Nat)
   | jumpIfTrueOrPop (lo : Nat)
+  | popJumpIfFalse (lo : Nat)             -- `POP_JUMP_FORWARD_IF_FALSE`
+  | jumpForward (lo : Nat)
   | popTop
   | returnValue
   deriving DecidableEq, Repr
@@ -176,6 +182,18 @@ def compileE : Expr → Option (List Instr)
     match compileE e with
     | some c => some (wrapPre w ++ c ++ [.unaryNot] ++ wrapPost w)
     | none => none
+  | .ite c a b w =>
+    -- `emit_if_instr`: cond; EXTENDED_ARG, POP_JUMP_FORWARD_IF_FALSE → else; then; EXTENDED_ARG, JUMP_FORWARD → end; else.
+    -- `fill_jump(idx_pop + 1, lasti − idx_pop − 4)` and `fill_jump(idx_jf + 1, idx_end − idx_jf − 2 − 1)`
+    match compileE c, compileE a, compileE b with
+    | some cc, some ca, some cb =>
+      -- (idx_end − idx_jf = 4 + |else code|, so the second distance is |else code| + 4 − 2 − 1 = |else code| + 1 bytes,
+      --  halved with rounding down by `fill_jump`)
+      match jumpArgs (codeSize ca + 4), jumpArgs (codeSize cb + 1) with
+      | some (h1, l1), some (h2, l2) =>
+        some (wrapPre w ++ cc ++ [.extArg h1, .popJumpIfFalse l1] ++ ca ++ [.extArg h2, .jumpForward l2] ++ cb ++ wrapPost w)
+      | _, _ => none
+    | _, _, _ => none
 
 def compileArgs : List Expr → Option (List Instr)
   | [] => some []
@@ -194,6 +212,7 @@ def stripWrap : Expr → Expr
   | .or l r _ => .or l r none
   | .neg e _ => .neg e none
   | .not e _ => .not e none
+  | .ite c a b _ => .ite c a b none
 
 /-- code of one chunk and whether it leaves a value on the stack -/
 def compileS : Stmt → Option (List Instr × Bool)
@@ -466,6 +485,13 @@ def step (code : List Instr) (s : VM) : StepResult :=
         if truthy v then .next { s with pc := pc' + 2 * (s.ext * 256 + lo), ext := 0 }
         else .next { s with pc := pc', ext := 0, stack := st }
       | [] => stuckAt s
+    | .popJumpIfFalse lo =>
+      match s.stack with
+      | v :: st =>
+        if truthy v then .next { s with pc := pc', ext := 0, stack := st }
+        else .next { s with pc := pc' + 2 * (s.ext * 256 + lo), ext := 0, stack := st }
+      | [] => stuckAt s
+    | .jumpForward lo => .next { s with pc := pc' + 2 * (s.ext * 256 + lo), ext := 0 }
     | .call argc =>
       match popArgs argc s.stack with
       | some (args, f :: .null :: st) =>
@@ -562,6 +588,18 @@ def evalW (env : Env) : Expr → R
     match evalW env e with
     | .error x => .error x
     | .ok (a, c1) => applyWrap w (.bool (!truthy a)) c1
+  | .ite c a b w =>
+    match evalW env c with
+    | .error x => .error x
+    | .ok (vc, c0) =>
+      if truthy vc then
+        match evalW env a with
+        | .error x => .error x
+        | .ok (va, c1) => applyWrap w va (c0 && c1)
+      else
+        match evalW env b with
+        | .error x => .error x
+        | .ok (vb, c2) => applyWrap w vb (c0 && c2)
 
 def evalArgsW (env : Env) : List Expr → Except Exc (List Val × Bool)
   | [] => .ok ([], true)
@@ -631,6 +669,10 @@ def evalPy (env : Env) : Expr → Except Exc Val
     match evalPy env e with
     | .error x => .error x
     | .ok a => .ok (.bool (!truthy a))
+  | .ite c a b _ =>
+    match evalPy env c with
+    | .error x => .error x
+    | .ok vc => if truthy vc then evalPy env a else evalPy env b
 
 def evalArgsPy (env : Env) : List Expr → Except Exc (List Val)
   | [] => .ok []
